@@ -19,8 +19,6 @@ SER_ROOTS = r"^rbx_binary::serializer::Serializer::<'db>::serialize$|^rbx_binary
 SITES = {
     ("rbx_binary::serializer::state::SerializerState::<'dom, 'db, W>::collect_type_info", "instance.properties"):
         ("order-insensitive except shared_strings.push", "sort-shared-strings"),
-    ("rbx_binary::serializer::state::SerializerState::<'dom, 'db, W>::serialize_properties", "prop_info.aliases"):
-        ("first-match over the alias set of one logical property; aliases of one property on one instance carry one logical value (statement does not define a winner otherwise)", None),
     ("rbx_xml::serializer::serialize_instance", "instance.properties"):
         ("collected into property_buffer", "sort-before-drain"),
 }
@@ -55,6 +53,29 @@ def container_root(prog, fn, t):
                 r, p = core.place_root(fl[1])
                 best = ".".join([str(r)] + [x for x in p if not x.startswith(".")])
     return best
+
+
+def first_match_exit(prog, root_fn, cr):
+    """description of a value-bearing early exit in the for-loop of `root_fn` that iterates container `cr`, or None"""
+    for n in core.walk_fn(root_fn):
+        if n.get("k") == "DropTemps":
+            continue
+        fl = core.as_for(n)
+        if fl is None:
+            continue
+        r, p = core.place_root(fl[1])
+        here = ".".join([str(r)] + [x for x in p if not x.startswith(".")])
+        if here != cr:
+            continue
+        for y in core.walk(fl[2], into_closures=False):
+            if y.get("k") == "Ret" and y.get("e") is not None and core.as_try(y) is None:
+                fp = core.fingerprint(y["e"], 3)
+                if "Err(" in fp or any(core.as_try(w) is not None and any(v is y for v in core.walk(w)) for w in core.walk(fl[2])):
+                    continue
+                return f"`return {fp[:50]}`"
+            if y.get("k") == "Break" and y.get("e") is not None:
+                return f"`break {core.fingerprint(y['e'], 3)[:50]}`"
+    return None
 
 
 def run_sanitisers(c, prog):
@@ -155,7 +176,13 @@ def run(c, prog):
         cr = container_root(prog, fn, t)
         key = (owner, cr)
         inst = f"{owner}|{cr}"
-        if key in SITES:
+        fm = first_match_exit(prog, prog.fns[owner], cr)
+        if fm is not None:
+            # the loop hands out the first element that matches: whichever the hash order presents first wins, so the
+            # result is order-dependent as soon as two elements can match — no table entry discharges that
+            seen.add(key)
+            c.violation(R, f"first-match|{core.short(owner)}|{cr}", f"{owner} walks the hash-ordered set `{cr}` and leaves with the first element that matches ({fm}): when two elements match — an instance carrying a property under two of its non-canonical spellings, e.g. Fire.size and Fire.size_xml, FormFactorPart.formFactor and formFactorRaw — the value written depends on the set's iteration order, i.e. on the process's hash seed", t.get("sp", ""), instance=inst)
+        elif key in SITES:
             seen.add(key)
             c.ok(R, inst)
         else:
@@ -163,7 +190,7 @@ def run(c, prog):
     for key in SITES:
         if key not in seen:
             c.violation(R, f"anchor|{key[0]}|{key[1]}", f"confirmed hash-iteration site {key} not found (table out of date)", "")
-    c.floor(R, len(sites), 3, "hash iteration sites reachable from the serializers")
+    c.floor(R, len(sites), 2, "hash iteration sites reachable from the serializers")
     run_sanitisers(c, prog)
 
     R = "C07.ord"
@@ -172,6 +199,7 @@ def run(c, prog):
         ("rbx_binary::serializer::state::TypeInfos", "values"): "alloc::collections::btree::map::BTreeMap<",
         ("rbx_binary::serializer::state::TypeInfo", "properties"): "alloc::collections::btree::map::BTreeMap<",
         ("rbx_binary::serializer::state::TypeInfo", "instances"): "alloc::vec::Vec<",
+        ("rbx_binary::serializer::state::PropInfo", "aliases"): "alloc::collections::btree::set::BTreeSet<",
         ("rbx_binary::serializer::state::SerializerState", "relevant_instances"): "alloc::vec::Vec<",
         ("rbx_binary::serializer::state::SerializerState", "shared_strings"): "alloc::vec::Vec<",
         ("rbx_xml::serializer::EmitState", "shared_strings_to_emit"): "alloc::collections::btree::map::BTreeMap<",
